@@ -126,9 +126,20 @@ def restore_globals():
             container.update(saved)
 
 
+REAL_GETPID = os.getpid
+SIM_PID = 4242
+
+
+def _sim_getpid():
+    return SIM_PID
+
+
 def begin_run(sim):
     """reset txtorcon's process-global state; make `sim` current"""
     restore_globals()
+    # the process id is an input like any other (launch() hands it to Tor as __OwningControllerProcess): the code
+    # under test sees a fixed one during a run, so that no byte count on the wire depends on the worker's pid
+    os.getpid = _sim_getpid
     CURRENT['sim'] = sim
     sim.logged_errors = []
     sim.already_called_logged = 0
@@ -144,6 +155,7 @@ def end_run():
     """no run is current any more; then collect cyclic garbage NOW, so that finalisers of this run's objects
     (Deferred.__del__ logging an unhandled failure, weak-reference callbacks) can never fire inside a later run"""
     CURRENT['sim'] = None
+    os.getpid = REAL_GETPID
     gc.collect()
 
 
